@@ -48,7 +48,7 @@ import (
 const (
 	mod     = "github.com/openGemini/openGemini"
 	kitPath = mod + "/lib/verifkit"
-	version = "maporder-4" // bump when the rewrite changes: invalidates every cached result
+	version = "maporder-5" // bump when the rewrite changes: invalidates every cached result
 )
 
 type site struct {
@@ -358,7 +358,7 @@ func generate(root string, pkgs []string, outDir string) *result {
 					}
 					kind := operandKind(tv.Type)
 					st.RangeByOperand[kind]++
-					if kind != "map" {
+					if kind != "map" && kind != "type parameter" {
 						return true
 					}
 					fn := "(package level)"
@@ -368,7 +368,11 @@ func generate(root string, pkgs []string, outDir string) *result {
 					pos := fset.Position(x.Pos())
 					s := site{Pos: fmt.Sprintf("%s/%s:%d", rel, names[f], pos.Line), Func: fn,
 						Map: types.TypeString(tv.Type, func(p *types.Package) string { return p.Name() }), Form: form(x)}
-					if reason := notRewritable(tv.Type, x); reason != "" {
+					reason := "operand type is a type parameter (may be instantiated with a map)"
+					if kind == "map" {
+						reason = notRewritable(tv.Type, x)
+					}
+					if reason != "" {
 						s.Reason = reason
 						st.Untouched++
 						st.UntouchedSites = append(st.UntouchedSites, s)
